@@ -23,6 +23,8 @@ package main
 //   id 43  canary:conc/race           unsynchronised write to a harness global, constant result
 //                                     -> flags all fine; bin/plugins/C20.py demands that the -race
 //                                     twin REPORTS this race (and nothing but canary races)
+//   id 44  canary:panic               always panics                      -> panics = 1 (a panic that is
+//                                     swallowed uncounted would let a call that compared nothing pass)
 
 import (
 	"math"
@@ -38,6 +40,7 @@ const (
 	c20CanaryNondet = 41
 	c20CanaryConc   = 42
 	c20CanaryRace   = 43
+	c20CanaryPanic  = 44
 )
 
 var c20Canaries []c20Call
@@ -171,6 +174,10 @@ func init() {
 	addc(c20Call{"canary:conc/overlap", c20CanaryConc, 1, func(rng *rand.Rand, n int) func() *c20Inst {
 		xs := c20Data(rng, n)
 		return one(&c20Inst{[]func() []uint64{snapF(&xs)}, func() []uint64 { return []uint64{c20CanaryOverlapFn()} }})
+	}})
+	addc(c20Call{"canary:panic", c20CanaryPanic, 1, func(rng *rand.Rand, n int) func() *c20Inst {
+		xs := c20Data(rng, n)
+		return one(&c20Inst{[]func() []uint64{snapF(&xs)}, func() []uint64 { panic("canary: this call always panics") }})
 	}})
 	addc(c20Call{"canary:conc/race", c20CanaryRace, 1, func(rng *rand.Rand, n int) func() *c20Inst {
 		xs := c20Data(rng, n)
